@@ -467,10 +467,16 @@ theorem gv_moveToEnded (p q : Pool) (t : Nat) (h : p.moveToEnded t = some q) : g
   · simp
   · simp only; split <;> simp
 
+@[simp] theorem gv_workerNext (p : Pool) (t : Nat) : gv (p.workerNext t) = gv p := by
+  unfold workerNext; simp
+
 @[simp] theorem gv_stepInWorker (p : Pool) (t : Nat) (tk : PTask) : gv (p.stepInWorker t tk) = gv p := by
   unfold stepInWorker; split
   · simp
-  · split <;> simp
+  · split
+    · split <;> simp
+    · simp
+    · simp
 
 @[simp] theorem gv_stepInCancelCb (p : Pool) (t : Nat) (tk : PTask) : gv (p.stepInCancelCb t tk) = gv p := by
   unfold stepInCancelCb; split <;> simp
